@@ -373,7 +373,7 @@ func runReaders(c *simrun.Ctx) *simrun.Violation {
 	info := infoOf(proto0)
 	var mt protoreflect.MessageType = info
 	md := info.Desc
-	cfg := simval.GenCfg{MaxDepth: 1 + t.Draw("maxdepth", 3), MaxFields: 1 + t.Draw("maxfields", 8), MaxMapEntries: 2 + t.Draw("maxentries", 6), MaxListLen: 1 + t.Draw("maxlist", 4), Unknown: t.Chance("unknowns", 1, 4), AnyTargets: anyTargets()}
+	cfg := simval.GenCfg{MaxDepth: 1 + t.Draw("maxdepth", 3), MaxFields: 1 + t.Draw("maxfields", 8), MaxMapEntries: 2 + t.Draw("maxentries", 6), MaxListLen: 1 + t.Draw("maxlist", 4), Unknown: t.Chance("unknowns", 1, 4), AnyTargets: anyTargets(), BigLists: true, InvalidUTF8: t.Chance("allow-invalid-utf8", 1, 6)}
 	av := simval.Gen(t, md, cfg)
 	canon := simval.Canon(av)
 	useStruct := t.Chance("build-struct", 1, 2)
